@@ -1,6 +1,8 @@
 import MpVerif.C03.LemmasMain
 import MpVerif.C03.LemmasNum
 import MpVerif.C03.LemmasGen
+import MpVerif.C03.LemmasIntended
+import MpVerif.C03.LemmasIntText
 /-!
 # C03 — NL writer output is read back as the same model (text = binary)
 
@@ -14,8 +16,9 @@ Full-strength statement of the property (NOT provable for the code as it is — 
     theorem C03_roundtrip_full (cd : Codec) (hcd : ∀ x, (cd.rd x).normZero = x.normZero) (m : Model) (o : Opts)
         (hwf : feeder contract) : readTokens cd (writeNL m o) = .ok (intended m o)   -- every item, every number as fed
 
-What is proved instead: `C03_roundtrip` — the reader returns exactly `events cd m o`, a function of the fed model
-that differs from "as fed" in two places only (a bound equal to ∓DBL_MAX is returned as ∓∞; a text header with
+What is proved instead: `C03_roundtrip` — the reader returns exactly `events cd m o` — and `C03_events_eq_intended`:
+`events` equals the independently written `intended m o` (ModelIntended.lean: every item, operator and number as fed) up
+to the sign of zero, so that `events` differs from "as fed" in two places only (a bound equal to ∓DBL_MAX is returned as ∓∞; a text header with
 `flags = 0 ∧ arith_kind = 0` reads back the constructor defaults), each with a proved counterexample and a `…_partial`
 theorem for its complement.  Both are open known findings.
 
@@ -68,6 +71,56 @@ theorem C03_roundtrip (cd : Codec) (m : Model) (o : Opts) (hwf : wellFormed m o 
     readTokens cd (writeNL m o) = .ok (events cd m o) :=
   roundtrip cd m o hwf
 
+/-! ## `events` is what the property demands: `intended` (ModelIntended.lean), written from the property text -/
+
+/-- **The "two places only" sentence as a theorem.**  For every model satisfying the feeder contract that is outside the two
+    documented exception classes (`noException`: no bound equal to ∓DBL_MAX on its infinite side; `flags ≠ 0 ∨ arith_kind ≠ 0`),
+    and whenever a written number comes back as itself up to the sign of zero (`NumOK`), what the reader is proved to deliver is
+    `intended m o` — every item and every operator as fed — up to the sign of zero. -/
+theorem C03_events_eq_intended (cd : Codec) (m : Model) (o : Opts) (ok : NumOK cd o) (hwf : wellFormed m o = true)
+    (hne : noException m = true) : (events cd m o).map Ev.nz = (intended m o).map Ev.nz :=
+  events_intended cd m o ok hwf hne
+
+/-- the binary format reads back the 8 bytes it wrote (`idCodec`), and `nput`'s short/long packing is exact: `NumOK` holds
+    outright, for every `Dbl` -/
+theorem C03_numok_binary (o : Opts) (hb : o.binary = true) : NumOK idCodec o :=
+  ⟨fun _ => rfl, fun x => numVal_binary_exact' x o hb, fun _ => rfl⟩
+
+/-- what the binary format copies — the 64-bit pattern — determines the double (the driver reads doubles as bit patterns with
+    `Dbl.ofBits`; this links the printed/compared hex words to the `Dbl` values the theorems speak about) -/
+theorem C03_binary_bits_roundtrip (x : Dbl) (hx : x.Valid) : Dbl.ofBits x.toBits = x := ofBits_toBits x hx
+
+/-- **Binary round trip, as fed, with no hypothesis on numbers**: reading what was written in binary delivers exactly
+    `intended m o` up to the sign of zero (outside the two exception classes). -/
+theorem C03_roundtrip_binary_as_fed (m : Model) (o : Opts) (hb : o.binary = true) (hwf : wellFormed m o = true)
+    (hne : noException m = true) :
+    ∃ evs, readTokens idCodec (writeNL m o) = .ok evs ∧ evs.map Ev.nz = (intended m o).map Ev.nz :=
+  ⟨_, roundtrip idCodec m o hwf, events_intended idCodec m o (C03_numok_binary o hb) hwf hne⟩
+
+/-- **Text round trip, as fed — PARTIAL**: under the hypothesis that `strtod (g_fmt x)` and `strtod (printf "%.17g" x)` return `x`
+    up to the sign of zero.  The hypothesis is tested on every run and is KNOWN TO BE FALSE for the real `g_fmt` on doubles whose
+    upper rounding boundary is (within 1/64 ulp of) a short decimal — open finding `codec:boundary-tie-round-trip`, e.g.
+    4611686018999999488 → "4.611686019e+18" → 4611686019000000512; for integer-valued doubles below 10^15 see
+    `C03_int_text_roundtrip`. -/
+theorem C03_roundtrip_text_as_fed_partial (cd : Codec) (hrd : ∀ x, (cd.rd x).normZero = x.normZero)
+    (hvb : ∀ x, (cd.vb x).normZero = x.normZero) (m : Model) (o : Opts) (ht : o.binary = false)
+    (hwf : wellFormed m o = true) (hne : noException m = true) :
+    ∃ evs, readTokens cd (writeNL m o) = .ok evs ∧ evs.map Ev.nz = (intended m o).map Ev.nz :=
+  ⟨_, roundtrip cd m o hwf,
+    events_intended cd m o ⟨hrd, fun x => numVal_text_exact cd hrd x o ht, hvb⟩ hwf hne⟩
+
+/-- **text = binary for whole models — PARTIAL (same codec hypothesis for the text side)**: the same model written as text and
+    as binary with the same other options is reported identically up to the sign of zero, except for the header's format and
+    arith-kind fields -/
+theorem C03_text_eq_binary_partial (cd : Codec) (hrd : ∀ x, (cd.rd x).normZero = x.normZero)
+    (hvb : ∀ x, (cd.vb x).normZero = x.normZero) (m : Model) (ot ob : Opts) (ht : ot.binary = false) (hb : ob.binary = true)
+    (hbf : ot.boundsFirst = ob.boundsFirst) (hcs : ot.colSizes = ob.colSizes)
+    (hwt : wellFormed m ot = true) (hwb : wellFormed m ob = true) (hne : noException m = true) :
+    ((events cd m ot).map Ev.nz).tail = ((events idCodec m ob).map Ev.nz).tail := by
+  rw [events_intended cd m ot ⟨hrd, fun x => numVal_text_exact cd hrd x ot ht, hvb⟩ hwt hne,
+      events_intended idCodec m ob (C03_numok_binary ob hb) hwb hne]
+  simp [intended, intendedBody, hbf, hcs]
+
 /-! ## numbers -/
 
 /-- `BinaryFormatter::nput` chooses `s` + int16 for integers in [-32768, 32767], `l` + int32 for the other integers in
@@ -107,6 +160,15 @@ theorem C03_number_text_eq_binary (cd : Codec) (hcd : ∀ x, (cd.rd x).normZero 
     (ot ob : Opts) (ht : ot.binary = false) (hb : ob.binary = true) :
     (numVal cd ot x).normZero = (numVal idCodec ob x).normZero := by
   rw [numVal_text_exact cd hcd x ot ht, numVal_binary_exact x hx ob hb]
+
+/-- **integer-valued doubles in text format, without any codec hypothesis**: for a double `x` whose value is the non-zero integer
+    `v`, `|v| < 10^15`, the text `g_fmt` prints (`gfmtInt v`: the digits of `|v|` without trailing zeros, then the zeros or an
+    exponent — compared with the real `g_fmt` on every run, harness lines `Z`) is read back by `strtod` as `v`, i.e. as the double
+    `x` itself.  A theorem over all such integers (decimal digits ↔ value, trailing-zero stripping, both layouts). -/
+theorem C03_int_text_roundtrip (x : Dbl) (v : Int) (h : x.toInt? = some v) (hv : v ≠ 0) (_hr : v.natAbs < 10 ^ 15) :
+    strtodInt (gfmtInt v) = v ∧ (Dbl.ofInt (strtodInt (gfmtInt v))).normZero = x.normZero := by
+  have e := strtod_gfmt_int v hv
+  exact ⟨e, by rw [e]; exact ofInt_toInt' x v h⟩
 
 /-! ## where `events` is not "as fed": partial theorems and counterexamples -/
 
@@ -305,6 +367,11 @@ example : (⟨false, 1023, 0⟩ : Dbl).Valid ∧ (⟨false, 1023, 0⟩ : Dbl).to
 -- C03_number_text_eq_binary: the hypothesis on the codec is satisfiable (and is what g_fmt/strtod satisfy outside the boundary cases)
 example : ∀ x : Dbl, ((⟨Dbl.normZero, id⟩ : Codec).rd x).normZero = x.normZero := by
   intro x; simp only [Dbl.normZero]; split <;> simp_all [Dbl.isZero, Dbl.zero]
+-- C03_int_text_roundtrip: both layouts occur: 1234500 is printed plain, 12000000 as 1.2e+07, 100000 as 1e+05
+example : gfmtInt 1234500 = .plain false [1, 2, 3, 4, 5] 2 ∧ gfmtInt 12000000 = .sci false [1, 2] 7 ∧ gfmtInt (-100000) = .sci true [1] 5 ∧
+          (⟨false, 1043, 798537499541504⟩ : Dbl).toInt? = some 1234500 := by decide
+-- C03_events_eq_intended / C03_roundtrip_binary_as_fed: the example model is outside the exception classes
+example : noException exModel = true := by decide
 -- C03_bounds_partial: ordinary bounds [0, 1], [-∞, 1], [1, 1] with the exact codec
 example : (Dbl.zero.leNegMax = true → Dbl.zero = Dbl.negInf) ∧ ((⟨false, 1023, 0⟩ : Dbl).geMax = true → (⟨false, 1023, 0⟩ : Dbl) = Dbl.posInf) ∧
           (Dbl.negInf.leNegMax = true → Dbl.negInf = Dbl.negInf) ∧ idCodec.rd Dbl.negInf = Dbl.negInf ∧ idCodec.rd Dbl.posInf = Dbl.posInf := by decide
